@@ -70,7 +70,7 @@ def in_fork(fn):
 
 V2A = "AV:N/AC:L/Au:N/C:P/I:P/A:P"
 V2B = "AV:L/AC:H/Au:M/C:N/I:P/A:C/E:U/RL:W/CDP:L/TD:H/AR:M"
-BODY3 = "AV:N/AC:L/PR:L/UI:N/S:C/C:H/I:L/A:N/E:P/CR:H/MS:U/MPR:H/MC:H"
+BODY3 = "AV:L/AC:L/PR:L/UI:R/S:C/C:N/I:H/A:H/E:P/CR:H"      # 3.0 scores (7.9, 7.5, 7.5), 3.1 (7.9, 7.5, 7.4)
 V30, V31 = "CVSS:3.0/" + BODY3, "CVSS:3.1/" + BODY3
 V31B = "CVSS:3.1/AV:L/AC:H/PR:H/UI:R/S:U/C:L/I:N/A:L"
 V31B_RE = "CVSS:3.1/A:L/I:N/C:L/S:U/UI:R/PR:H/AC:H/AV:L/E:X/MAV:X/CR:X"
@@ -156,7 +156,12 @@ def probe_inputs():
             V4A, V4B, "CVSS:4.0/AV:N/AC:L/AT:N/PR:N/UI:N/VC:N/VI:N/VA:N/SC:N/SI:N/SA:N",
             "CVSS:4.0/AV:A/AC:L/AT:N/PR:N/UI:N/VC:H/VI:L/VA:N/SC:N/SI:N/SA:N/E:P/AR:M/S:P",
             "AV:N/AC:L/E:F", "CVSS:3.1/AV:P/S:C", "CVSS:4.0/AV:P/MSI:S", "", "AV:N/AC:L/Au:N/C:P/I:P/A:P/AV:N",
-            "CVSS:3.1/AV:N/AC:L/PR:N/UI:N/S:U/C:H/I:H/A:H/MA:Q"]
+            "CVSS:3.1/AV:N/AC:L/PR:N/UI:N/S:U/C:H/I:H/A:H/MA:Q",
+            # the very strings (and fields) the history operations get rejected with, and other
+            # vectors carrying the same rejected fields
+            V2A + "/AV:L", V31 + "/MA:Q", V4B + "/ZZ:1", V4A + "/ZZ:1", V31B + "/MA:Q", V2B + "/AV:L",
+            "ZZ:1", "CVSS:4.0/ZZ:1", "CVSS:3.1/MA:Q", "AV:N/AC:L/E:F/CR:H", "CVSS:3.1/AV:P/S:C/MS:U/E:U",
+            "CVSS:4.0/AV:P/MSI:S/E:U/CR:L", V4A + "/U:Purple", V4A + "/E:F"]
     for fam in T.FAMILIES:
         vecs += [s for s, _ in observe.covering_seeds(fam, 12)]
     return vecs
@@ -200,7 +205,15 @@ def run_probe():
     return hashlib.sha256("\n".join(out).encode("utf-8")).hexdigest(), len(out)
 
 
+def distinctive_context():
+    """Histories run under a non-default ambient context so that a library that replaces or edits
+    the caller's context shows in the ambient snapshot (under the default context a leak of an
+    equal-valued context would be invisible)."""
+    decimal.setcontext(decimal.Context(prec=33, rounding=decimal.ROUND_05UP))
+
+
 def pristine():
+    distinctive_context()
     return {"probe": run_probe()[0], "tables": opseq.digest(opseq.constants_snapshot()),
             "ambient": opseq.ambient_snapshot()}
 
@@ -208,6 +221,7 @@ def pristine():
 def run_history(names, base):
     """Run the ops; return why-or-None."""
     _LL.clear()
+    distinctive_context()
     byname = dict((n, (f, cli)) for n, f, cli in OPS)
     for n in names:
         f, is_cli = byname[n]
@@ -666,6 +680,15 @@ def _dec_task(t):
         for fam, v in vs[i:i + 2000]:
             hh.update(repr(observe.cls_of(fam)(v).scores()).encode("ascii"))
         chunk_digests.append(hh.hexdigest())
+    # rejected constructions as well: the context must survive every error path
+    import cvss
+    from cvss.parser import parse_cvss_from_text
+    for cls in (cvss.CVSS2, cvss.CVSS3, cvss.CVSS4):
+        for bad in ("", "AV:N", V2A + "/AV:L", V31 + "/MA:Q", "CVSS:3.1/AV:P/S:C", V4B + "/ZZ:1", "CVSS:4.0/AV:P"):
+            _try(lambda: cls(bad))
+            _try(lambda: cls.from_rh_vector("1.0/" + bad))
+            _try(lambda: cls.from_rh_vector("x/" + bad))
+    parse_cvss_from_text(TEXT + " " + V31 + "/MA:Q AV:N/AC:L/Au:N/C:P/I:P/A:Q")
     after = opseq.ambient_snapshot()["decimal"]
     return chunk_digests, before == after, after
 
